@@ -50,6 +50,10 @@ CLAIMED = {
             "Runtime monitoring: pairs derived from a common ancestor by 0-3 mutations (all field kinds, unknown fields, NaN, typed nil, Change look-alikes) are run through cmp.Equal and the tolerance comparers and compared with an independent reference equality and an exact-arithmetic tolerance oracle (reflexivity, symmetry, inside/outside the tolerance, other kinds untouched); And/Or/ValueAnd/ValueOr against truth tables; resources with an equivalence are written and each subscriber's stream is judged against the value it holds.",
             "Presence-only differences of change_time and one-sided well-known values are counted, not judged; durations and times are kept in the exactly representable range.",
             "DESIGN.md §4 C16"),
+    "C17": ("contract evaluator over gated executions: members gated by channels released in an enumerated order with quiescence between releases; goroutine-dump leak and hang detection; child process per batch",
+            "Runtime monitoring: for member counts 0-4 (thorough 5-6) every success/failure assignment x every completion order x every strategy and entry point (Execute, Execute*, ExecuteUpTo, and the onoffpb/lightpb groups through fake clients) is executed with members gated by the harness, and the returned error, results and indexes, the first error, which member contexts are cancelled when, panics, hangs and leaked pkg/group goroutines are compared with a contract evaluator written from the property statement; random scenarios up to 8 members with cancellation-aware members and caller cancels.",
+            "Completion order is an enumerated input (one gate released per quiescent point); where the statement leaves cancellation of still-running members open after a success decision both behaviours are accepted and counted.",
+            "DESIGN.md §4 C17"),
     "C18": ("reference-model monitor (dense-timeline / step-function brute-force oracle) over exhaustive small grids and random inputs",
             "Runtime monitoring: every period pair on a small exhaustive grid, random 64-bit-range timestamps and random segment/mode lists are run through the real functions and compared with brute-force mathematical oracles; arguments are shadow-copied to detect mutation. Held on the executions listed in the evidence, nothing more.",
             "Oracles are written from the property text; float32 magnitudes are small integers so arithmetic is exact; inputs outside the stated domain (inverted periods) are counted, not judged.",
